@@ -36,7 +36,7 @@ def headers_for(ni, nx, sorting='il'):
 def _prepare(d, k, shape, seed, sorting='il'):
     ni, nx, nz = shape
     cube = inputs.cube(shape, seed + k)
-    il = 100 + 2 * np.arange(ni)
+    il = (100 if k != 2 else 0) + 2 * np.arange(ni)        # (the large cube is numbered from inline 0: a regular survey, not a 2-D line)
     xl = -7 + 3 * np.arange(nx)
     sgy = os.path.join(d, f'src{k}.sgy')
     inputs.write_segy(sgy, cube, il, xl, np.arange(nz) * 4.0, headers=headers_for(ni, nx, sorting), sorting=sorting)
